@@ -407,14 +407,19 @@ func keyExchange(klen int, ida, idb []byte, pri *PrivateKey, pub *PublicKey, rpr
 		return
 	}
 	zero := new(big.Int)
-	if vx.Cmp(zero) == 0 || vy.Cmp(zero) == 0 {
+	if vx.Cmp(zero) == 0 && vy.Cmp(zero) == 0 {
+		// the point at infinity is represented as (0,0)
 		err = errors.New("V is infinite")
+		return
 	}
 	pzb := pub
 	if !thisISA {
 		pzb = &pri.PublicKey
 	}
 	zb, err := ZA(pzb, idb)
+	if err != nil {
+		return
+	}
 	k, ok := kdf(klen, vx.Bytes(), vy.Bytes(), za, zb)
 	if !ok {
 		err = errors.New("kdf: zero key")
